@@ -452,7 +452,7 @@ func vfRunC16(c vfC16Case) *kit.Result {
 	}
 	old := runtime.GOMAXPROCS(c.Procs)
 	defer runtime.GOMAXPROCS(old)
-	if c.Cont && !vfDiskRoomy(os.TempDir()) {
+	if c.Cont && !vfDiskRoomy(vfScratchDir()) {
 		c.Cont = false
 	}
 	a := vfC16Run(c, true)
